@@ -99,6 +99,8 @@ class Sym:
             return ast.Call(ast.Name(f"{m.group(2)}_{m.group(3)}", ast.Load()), [self.val(m.group(1), st)], [])
         m = re.match(r"^\((\(?\*?_\d+\)?)\.(\d+): (.*)\)$", a)
         if m:
+            if "FIELD:" + a in st:          # a field written earlier on this path reads back as the value written
+                return st["FIELD:" + a]
             base_l = re.sub(r"[()*]", "", m.group(1))
             base = self.val(base_l, st)
             ty = re.sub(r"<.*>", "", self.fn.types.get(base_l, "")).replace("&mut ", "").replace("&", "").strip()
